@@ -7,6 +7,7 @@ from . import treeio
 
 
 def record_case(cid, T, mods, seed, shuffle=True, origin='tlc'):
+    mods = mods or treeio.repo_modules()
     trees = mods['trees']
     ta = mods['treeanalysis']
     to = mods['treeoutput']
